@@ -422,7 +422,9 @@ pub fn check_case(c: &Case) -> CheckResult {
                     }
                 }
                 w.reps[0].commit(ops).map_err(|e| Failure::new("commit-error", format!("session {si}: {e}")))?;
+                let before_keys = stored.clone();
                 stored = model;
+                check_cached_depmap(&mut w, &before_keys, &format!("after raw session {si}"))?;
                 verify_stored(&mut w, &stored, &format!("after raw session {si}"))?;
                 rep.class("low-level-session");
                 continue;
@@ -531,6 +533,7 @@ pub fn check_case(c: &Case) -> CheckResult {
         for (t, (_, held)) in &objs {
             stored.insert(task_uuid(*t as usize), held.map.clone());
         }
+        check_cached_depmap(&mut w, &stored, &format!("after session {si}"))?;
         // held object == stored object
         for (t, (task, _)) in &objs {
             let uuid = task_uuid(*t as usize);
@@ -604,6 +607,25 @@ fn read_back(task: &Task, m: &Map, what: &str) -> Result<(), Failure> {
     }
     crate::ensure!(task.get_description() == m.get("description").map(|s| s.as_str()).unwrap_or(""), "description-read-back", "{what}: description");
     crate::ensure!(task.get_priority() == m.get("priority").map(|s| s.as_str()).unwrap_or(""), "priority-read-back", "{what}: priority");
+    Ok(())
+}
+
+/// Right after a commit the dependency map handed out without forcing a recalculation must be
+/// what a recalculation gives at that moment (every commit drops the cached map).  This is
+/// deliberately checked before any working-set rebuild: a rebuild or a sync does not refresh a
+/// cached map, and the documentation of `dependency_map` allows that.
+fn check_cached_depmap(w: &mut World, stored: &BTreeMap<Uuid, Map>, what: &str) -> Result<(), Failure> {
+    let cached = block_on(w.reps[0].replica.dependency_map(false)).map_err(|e| Failure::new("api-error", format!("{e}")))?;
+    let forced = block_on(w.reps[0].replica.dependency_map(true)).map_err(|e| Failure::new("api-error", format!("{e}")))?;
+    for a in stored.keys().copied().chain((0..NT as usize).map(task_uuid)) {
+        let c: BTreeSet<Uuid> = cached.dependencies(a).collect();
+        let f: BTreeSet<Uuid> = forced.dependencies(a).collect();
+        crate::ensure!(
+            c == f,
+            "stale-dependency-map",
+            "{what}: right after the commit dependency_map(false) gives {c:?} for {a} but a recalculation gives {f:?}"
+        );
+    }
     Ok(())
 }
 
